@@ -374,11 +374,11 @@ Fixpoint lower (fuel : nat) (vtbl : list (N * rule)) (tbl : list (N * lrule)) (s
         end
     | LRNaN => Ok (XConst (f_lit B LSNaN))
     | LRBoolAtom => match e with EBool b => Ok (XConst (f_lit B (if b then L1 else L0))) | _ => ErrExn EXN_STD end
-    | LRSymbol =>
-        match index_of syms e 0 with
-        | Some i => Ok (XIn i)
-        | None => match assoc cmap e with Some k => Ok (XRef k) | None => ErrExn EXN_SYMENGINE end
-        end
+    | LRSymbol map_first =>
+        let from_inputs (k : res lexp) := match index_of syms e 0 with Some i => Ok (XIn i) | None => k end in
+        let from_map (k : res lexp) := match assoc cmap e with Some i => Ok (XRef i) | None => k end in
+        if map_first then from_map (from_inputs (ErrExn EXN_SYMENGINE))
+        else from_inputs (from_map (ErrExn EXN_SYMENGINE))
     | LRConstant => do v <- eval_const_via B vtbl e; Ok (XConst v)
     | LRPass => do c <- nth_child e 0; lw c
     | LRRewrite _ =>
